@@ -780,6 +780,36 @@ def run_cli_combo(bits, fake_url, workdir):
     return f, rc, so, se, created
 
 
+def bx_eval(b, f):
+    o = b["op"]
+    if o == "atom":
+        return bool(f["end" if b["name"] == "end_" else b["name"]])
+    if o == "not":
+        return not bx_eval(b["a"], f)
+    if o == "and":
+        return bx_eval(b["a"], f) and bx_eval(b["b"], f)
+    if o == "or":
+        return bx_eval(b["a"], f) or bx_eval(b["b"], f)
+    return o == "true"
+
+
+def chain_suspects():
+    """valuations of the 13 presence facts on which the REGENERATED validation chain of main.go disagrees with the rule table"""
+    try:
+        d = json.load(open(os.path.join(BUILD, "srcfacts.json")))
+        rules = d.get("validation") or []
+    except Exception:
+        return []
+    out = []
+    for i in range(8192):
+        b = format(i, "013b")
+        f = dict(zip(FLAG_NAMES, [c == "1" for c in b]))
+        rejected = any(bx_eval(r["cond"], f) for r in rules)
+        if (not rejected) != spec_well_defined(f):
+            out.append(b)
+    return out
+
+
 def oracle_c18(tables, seed, tier, deep):
     import fakeatlas, tempfile, shutil
     from concurrent.futures import ThreadPoolExecutor
@@ -800,7 +830,12 @@ def oracle_c18(tables, seed, tier, deep):
                         combos.add(b[:k] + ("0" if b[k] == "1" else "1") + b[k + 1:])
         while len(combos) < 700:
             combos.add(format(rng.below(8192), "013b"))
-    combos = sorted(combos)
+    # SUSPECTS synthesised from the regenerated validation chain (build/srcfacts.json, tools/extract): every valuation on which
+    # what main.go's chain says NOW differs from the rule table is run through the real CLI first - so that a broken
+    # C18_source_exact obligation comes with its failing input
+    suspects = chain_suspects()
+    combos |= set(suspects[:400])
+    combos = sorted(combos, key=lambda b: (b not in suspects, b))
     # every kind of stdin for the jobs around "stdin is the input": alone, with an output file, together with a file argument, together with Atlas parameters
     def bitsof(**kw):
         return "".join("1" if kw.get(nm) else "0" for nm in FLAG_NAMES)
